@@ -7,12 +7,20 @@
   (Proofs/Keys.lean) and `genTables_wf` proves those for the tables regenerated from /repo on every run
   (`decide +kernel`), so editing a table re-opens the obligations.
 
-  Hypotheses, all visible in the statements:
-  * bytes are `Nat`; where a statement needs "values are bytes" it says `∀ b ∈ seq, b < 256`;
+  Hypotheses and readings, all visible in the statements:
+  * bytes are `Nat`; `Recognised` (Proofs/KeysLoop.lean) is "input made of recognised sequences and validly encoded
+    characters" at byte level, `C03_units_recognised` links it to concatenations of units;
   * `metaCollision`: under utf-8 a one-byte 8-bit Meta key that is a UTF-8 lead byte (C0..FD) with more bytes
-    buffered is not "recognised" (property text: such keys count only when they end a read);
-  * C03_never_fails excludes exactly the footprint of known finding D12 (`noD12`); the full statement is
-    `C03_never_fails_full_statement`, refuted at a point of the footprint by `C03_D12_witness`.
+    buffered is not "recognised" (property text: such keys count only when they end a read); 80..BF, FE, FF are
+    recognised anywhere;
+  * "reports every character as itself" is claimed for characters whose encoding is not a table key (`C03_chars`);
+    the others (under latin-1 162 of 256) are reported under their table name (`C03_chars_table_key`);
+  * after a key that is itself a KEYMAP_PREFIXES member (ESC, ESC ESC, ESC O, ESC [) has merged with what follows
+    - which the text licenses - nothing is claimed about the table sequence that followed it (`C03_table`, third
+    conjunct: the result only contains `u` and at least one more byte);
+  * C03_never_fails_partial excludes exactly the footprint of known finding D12 (`runNoD12`, decoder-relative;
+    `noD12` is a static over-approximation); the full statement is `C03_never_fails_full_statement`, refuted at
+    a point of the footprint by `C03_D12_witness`.
 -/
 import Curtsies.Model.KeysGen
 import Curtsies.Proofs.Keys
@@ -135,14 +143,16 @@ def metaCollision (enc : Enc) (u rest : List Nat) : Prop :=
 /-- For every entry `u` of either table, every continuation `rest`, encoding and naming mode:
     every proper prefix of `u` makes the decoder wait; then
     - if `u` ends the buffer or is not a KEYMAP_PREFIXES member: `find_key` returns `u` as ONE keypress under its
-      table name (`tableName`: the curtsies / curses table name of the mode, or the bytes), `rest` untouched;
+      table name (`tableName`, Proofs/Keys.lean: curtsies mode - `u` has a curtsies name and the key is it; curses
+      mode - its curses name, or for curtsies-only entries the decoded bytes / `xHH`; bytes mode - the bytes),
+      `rest` untouched;
     - if `u` is a KEYMAP_PREFIXES member and more bytes are buffered: the decoder keeps reading, and whatever it
       returns consumed `u` and at least one more byte (never broken up). -/
 theorem C03_table (T : KeyTables) (hT : T.WF) (u : List Nat) (hu : T.isKey u = true) (enc : Enc)
     (mode : KeyMode) (rest : List Nat) (hc : ¬ metaCollision enc u rest) :
     (∀ i, 1 ≤ i → i < u.length → getKey T (u.take i) enc mode false = .ok none) ∧
     ((rest = [] ∨ u ∉ T.prefixes) →
-      ∃ k, findKey T enc mode (u ++ rest) = .ok (some (k, u, rest)) ∧ tableName T u mode k) ∧
+      ∃ k, findKey T enc mode (u ++ rest) = .ok (some (k, u, rest)) ∧ tableName T u enc mode k) ∧
     ((rest ≠ [] ∧ u ∈ T.prefixes) →
       findKey T enc mode (u ++ rest) = findKeyLoop T enc mode u rest ∧
       ∀ k c r, findKey T enc mode (u ++ rest) = .ok (some (k, c, r)) → ∃ m, m ≠ [] ∧ c = u ++ m) := by
@@ -180,7 +190,7 @@ theorem C03_table_generated (u : List Nat) (hu : genTables.isKey u = true) (enc 
     (rest : List Nat) (hc : ¬ metaCollision enc u rest) :
     (∀ i, 1 ≤ i → i < u.length → getKey genTables (u.take i) enc mode false = .ok none) ∧
     ((rest = [] ∨ u ∉ genTables.prefixes) →
-      ∃ k, findKey genTables enc mode (u ++ rest) = .ok (some (k, u, rest)) ∧ tableName genTables u mode k) ∧
+      ∃ k, findKey genTables enc mode (u ++ rest) = .ok (some (k, u, rest)) ∧ tableName genTables u enc mode k) ∧
     ((rest ≠ [] ∧ u ∈ genTables.prefixes) →
       findKey genTables enc mode (u ++ rest) = findKeyLoop genTables enc mode u rest ∧
       ∀ k c r, findKey genTables enc mode (u ++ rest) = .ok (some (k, c, r)) → ∃ m, m ≠ [] ∧ c = u ++ m) :=
@@ -239,6 +249,32 @@ theorem C03_chars (T : KeyTables) (hT : T.WF) (enc : Enc) (c : Nat) (bs : List N
       exact single c rfl (by simp [decode, decodeAscii, hc])
     · cases hbs
 
+/-- The other half: a character whose encoding IS a table key (control characters, space, DEL; under latin-1
+    all of 0x80..0xFF - 162 of the 256 latin-1 characters in all) is reported under its TABLE name, not as itself
+    (`C03_table` with a one-byte `u`; under utf-8 a multi-byte encoding is never a table key). This is the
+    reading the check uses: "reports every character as itself" is claimed for characters that are not table
+    keys. -/
+theorem C03_chars_table_key (T : KeyTables) (hT : T.WF) (enc : Enc) (c : Nat) (bs : List Nat)
+    (hbs : charBytes enc c = some bs) (hk : T.isKey bs = true) (mode : KeyMode) (rest : List Nat)
+    (hc : ¬ metaCollision enc bs rest) (hp : rest = [] ∨ bs ∉ T.prefixes) :
+    bs.length = 1 ∧ ∃ k, findKey T enc mode (bs ++ rest) = .ok (some (k, bs, rest)) ∧ tableName T bs enc mode k := by
+  refine ⟨?_, (C03_table T hT bs hk enc mode rest hc).2.1 hp⟩
+  cases enc with
+  | utf8 =>
+    simp only [charBytes] at hbs
+    split at hbs
+    · rename_i hs
+      cases hbs
+      have hshape := encode_shape c hs
+      by_cases h2 : 2 ≤ (encode c).length
+      · obtain ⟨b0, t, he, hb0⟩ := hshape.head_ge h2
+        have := ((isKey_entry hT hk).2.2.2 h2).1
+        rw [he] at this; simp at this; omega
+      · have := hshape.length_le; omega
+    · cases hbs
+  | latin1 => simp only [charBytes] at hbs; split at hbs <;> cases hbs; rfl
+  | ascii => simp only [charBytes] at hbs; split at hbs <;> cases hbs; rfl
+
 /-- `C03_chars` for the regenerated tables. -/
 theorem C03_chars_generated (enc : Enc) (c : Nat) (bs : List Nat) (hbs : charBytes enc c = some bs)
     (hnk : genTables.isKey bs = false) (mode : KeyMode) (rest : List Nat) :
@@ -263,7 +299,117 @@ example : charBytes .ascii 97 = some [97] ∧ genTables.isKey [97] = false := by
 def growsIntoKey (T : KeyTables) (seq : List Nat) : Prop :=
   ∃ e ∈ T.all, ∃ i < e.1.length, 1 ≤ i ∧ e.1.take i = seq
 
-/-- a lead byte followed by continuation bytes that are valid so far (strict UTF-8 ranges), still incomplete -/
+theorem map_some_ne_none {ε α : Type} (x : Except ε α) : Except.map some x ≠ .ok none := by
+  cases x <;> simp [Except.map]
+
+/-- an unfinished utf-8 lead: what `couldBeUnfinishedUtf8` says about the first byte and the length -/
+theorem unfinished_lead {seq : List Nat} (h : couldBeUnfinishedUtf8 seq = true) :
+    ∃ b0 t, seq = b0 :: t ∧ 0xC0 ≤ b0 ∧ b0 ≤ 0xFD ∧
+      ((b0 < 0xE0 → seq.length < 2) ∧ (0xE0 ≤ b0 → b0 < 0xF0 → seq.length < 3) ∧
+       (0xF0 ≤ b0 → b0 < 0xF8 → seq.length < 4)) := by
+  cases seq with
+  | nil => simp [couldBeUnfinishedUtf8] at h
+  | cons b0 t =>
+    refine ⟨b0, t, rfl, ?_⟩
+    simp only [couldBeUnfinishedUtf8, Bool.or_eq_true, Bool.and_eq_true, beq_iff_eq, decide_eq_true_eq,
+      List.length_cons] at h ⊢
+    omega
+
+/-- The property's clause, for input made of recognised sequences and validly encoded characters:
+    let `seq ++ ext` be such input (`Recognised`, any of the three encodings; `ext` = what has not been handed to
+    the decoder yet) and let the decoder be asked about `seq` with `full` as `find_key` computes it when nothing
+    is left (`ext = [] → full = true`; when bytes are left `full` is arbitrary, so both situations are covered).
+    If it asks for more input (`ok none`) then `seq` is a proper prefix of a table sequence, or (utf-8 only)
+    `seq` can be completed by at least one more byte to ONE strictly valid character. Under ascii and latin-1 the
+    decoder therefore waits only on table prefixes. The hypothesis is about the INPUT, not about the model's own
+    predicate: the proof shows that `couldBeUnfinishedUtf8` keeps `seq` inside the first character of the
+    input, whose remaining bytes are the completion. -/
+theorem C03_waits_only_when_growable (T : KeyTables) (hT : T.WF) (enc : Enc) (seq ext : List Nat)
+    (mode : KeyMode) (full : Bool) (hrec : Recognised T enc (seq ++ ext)) (hfull : ext = [] → full = true)
+    (h : getKey T seq enc mode full = .ok none) :
+    growsIntoKey T seq ∨ (enc = .utf8 ∧ ∃ e, e ≠ [] ∧ validChar (seq ++ e)) := by
+  unfold getKey at h
+  split at h
+  · cases h
+  · split at h
+    · exact absurd h (map_some_ne_none _)
+    · rename_i hfk
+      split at h
+      · rename_i hw
+        simp only [Bool.or_eq_true] at hw
+        rcases hw with hw | hw
+        · left
+          obtain ⟨e, he, _, i, hi, h1, h2⟩ := hT.prefix_sound seq (by simpa using hw)
+          exact ⟨e, he, i, hi, h1, h2⟩
+        · right
+          cases enc with
+          | ascii => simp [couldBeUnfinishedChar] at hw
+          | latin1 =>
+            have hb : ∀ b ∈ seq, b < 256 := fun b hb => hrec b (by simp [hb])
+            have : decodable seq .latin1 = true := by
+              simp only [decodable, decode, decodeLatin1]
+              rw [if_pos (by simpa using hb)]; rfl
+            simp [couldBeUnfinishedChar, this] at hw
+          | utf8 =>
+            refine ⟨rfl, ?_⟩
+            have hu : couldBeUnfinishedUtf8 seq = true := by
+              simp only [couldBeUnfinishedChar] at hw
+              split at hw
+              · cases hw
+              · exact hw
+            obtain ⟨b0, t, rfl, hlo, hhi, hlen⟩ := unfinished_lead hu
+            simp only [Recognised] at hrec
+            generalize hbuf : (b0 :: t) ++ ext = buf at hrec
+            cases hrec with
+            | nil => simp at hbuf
+            | last b hk =>
+              exfalso
+              simp at hbuf
+              obtain ⟨rfl, rfl, rfl⟩ := hbuf
+              have := hfull rfl
+              subst this
+              simp [keyKnown_of_isKey hk] at hfk
+            | key8 b r hk h128 hlead _ =>
+              simp at hbuf
+              exact absurd ⟨by omega, by omega⟩ (hbuf.1 ▸ hlead)
+            | char p r hp hr =>
+              have hlp : (b0 :: t).length < p.length := by
+                cases hp with
+                | one b _ => simp at hbuf; omega
+                | two a b h0 h0' _ => simp at hbuf; have := hlen.1 (by omega); simp at this ⊢; omega
+                | three a b c h0 h0' _ _ _ _ => simp at hbuf; have := hlen.2.1 (by omega) (by omega); simp at this ⊢; omega
+                | four a b c d h0 h0' _ _ _ _ _ =>
+                  simp at hbuf; have := hlen.2.2 (by omega) (by omega); simp at this ⊢; omega
+              have hpre : p = (b0 :: t) ++ p.drop (b0 :: t).length := by
+                have h1 : p.take (b0 :: t).length = b0 :: t := by
+                  have e1 : List.take (b0 :: t).length (p ++ r) = List.take (b0 :: t).length p :=
+                    List.take_append_of_le_length (by omega)
+                  have e2 : List.take (b0 :: t).length ((b0 :: t) ++ ext) = b0 :: t := by simp
+                  rw [hbuf, e1] at e2
+                  exact e2
+                conv => lhs; rw [← List.take_append_drop (b0 :: t).length p]
+                rw [h1]
+              refine ⟨p.drop (b0 :: t).length, ?_, ?_⟩
+              · intro e
+                have := congrArg List.length e
+                simp at this; simp at hlp; omega
+              · rw [← hpre]; exact hp.valid
+      · split at h
+        · exact absurd h (map_some_ne_none _)
+        · cases h
+
+/-- Non-vacuity: `E2 82` with `AC` still to come is recognised input on which the decoder waits (also when told
+    the buffer is exhausted), and `ESC [ 1` followed by `5 ~` likewise. -/
+example : Recognised genTables .utf8 ([0xE2, 0x82] ++ [0xAC]) ∧
+    getKey genTables [0xE2, 0x82] .utf8 .curtsies false = .ok none ∧
+    getKey genTables [0xE2, 0x82] .utf8 .curtsies true = .ok none ∧
+    getKey genTables [27, 91, 49] .utf8 .curtsies false = .ok none := by
+  refine ⟨?_, by decide +kernel, by decide +kernel, by decide +kernel⟩
+  exact RecUtf8.char [0xE2, 0x82, 0xAC] [] (.three _ _ _ (by omega) (by omega) (by decide) (by decide)
+    (by omega) (by omega)) .nil
+
+/-- a lead byte followed by continuation bytes that are valid so far (strict UTF-8 ranges), still incomplete
+    (independent of the decoder: used only for the strict-UTF-8 fact below) -/
 def wellFormedSoFar : List Nat → Prop
   | [b0] => 0xC2 ≤ b0 ∧ b0 < 0xF5
   | [b0, b1] => 0xE0 ≤ b0 ∧ b0 < 0xF5 ∧ isCont b1 = true ∧ (b0 = 0xE0 → 0xA0 ≤ b1) ∧ (b0 = 0xED → b1 < 0xA0) ∧
@@ -272,7 +418,7 @@ def wellFormedSoFar : List Nat → Prop
       (b0 = 0xF0 → 0x90 ≤ b1) ∧ (b0 = 0xF4 → b1 < 0x90)
   | _ => False
 
-theorem wellFormed_completes (seq : List Nat) (h : wellFormedSoFar seq) :
+theorem C03_wellformed_prefix_completes (seq : List Nat) (h : wellFormedSoFar seq) :
     ∃ ext, ext ≠ [] ∧ validChar (seq ++ ext) := by
   have c80 : isCont 0x80 = true := by decide
   have cA0 : isCont 0xA0 = true := by decide
@@ -302,43 +448,12 @@ theorem wellFormed_completes (seq : List Nat) (h : wellFormedSoFar seq) :
     obtain ⟨h0, h0', i1, i2, e3, e4⟩ := h
     exact ⟨[0x80], by simp, _, decodeOne_4 b0 b1 b2 0x80 [] h0 h0' i1 i2 c80 e3 e4⟩
 
-theorem map_some_ne_none {ε α : Type} (x : Except ε α) : Except.map some x ≠ .ok none := by
-  cases x <;> simp [Except.map]
-
-theorem C03_waits_only_when_growable (T : KeyTables) (hT : T.WF) (seq : List Nat) (enc : Enc) (mode : KeyMode)
-    (full : Bool) (hb : ∀ b ∈ seq, b < 256) (h : getKey T seq enc mode full = .ok none) :
-    growsIntoKey T seq ∨
-    (enc = .utf8 ∧ couldBeUnfinishedChar seq .utf8 = true ∧
-      (wellFormedSoFar seq → ∃ ext, ext ≠ [] ∧ validChar (seq ++ ext))) := by
-  unfold getKey at h
-  split at h
-  · cases h
-  · split at h
-    · exact absurd h (map_some_ne_none _)
-    · split at h
-      · rename_i hw
-        simp only [Bool.or_eq_true] at hw
-        rcases hw with hw | hw
-        · left
-          obtain ⟨e, he, _, i, hi, h1, h2⟩ := hT.prefix_sound seq (by simpa using hw)
-          exact ⟨e, he, i, hi, h1, h2⟩
-        · right
-          cases enc with
-          | utf8 => exact ⟨rfl, hw, wellFormed_completes seq⟩
-          | ascii => simp [couldBeUnfinishedChar] at hw
-          | latin1 =>
-            have : decodable seq .latin1 = true := by
-              simp only [decodable, decode, decodeLatin1]
-              rw [if_pos (by simpa using hb)]; rfl
-            simp [couldBeUnfinishedChar, this] at hw
-      · split at h
-        · exact absurd h (map_some_ne_none _)
-        · cases h
-
 /-- The unconditional reading ("whenever the decoder waits, the bytes can be completed to a table sequence or a
-    valid character") is FALSE, as recorded in the design: under utf-8 the decoder waits on `E0 41`, which no
-    continuation completes. This is outside the property (its clause is about input made of recognised sequences
-    and validly encoded characters; `E0 41` is the start of neither), so it is not a finding. -/
+    valid character", for ARBITRARY bytes) is false, as recorded in the design: under utf-8 the decoder waits on
+    `E0 41`, which no continuation completes. NOT A FINDING: the witness input `E0 41` is outside the property's
+    domain (its clause is about input made of recognised sequences and validly encoded characters, and `E0 41`
+    is the start of neither); the statement is kept only to document why `C03_waits_only_when_growable` carries
+    the `Recognised` hypothesis. -/
 def C03_waits_unconditional_statement : Prop :=
   ∀ seq, getKey genTables seq .utf8 .curtsies false = .ok none →
     growsIntoKey genTables seq ∨ ∃ ext, validChar (seq ++ ext)
@@ -354,12 +469,6 @@ theorem C03_waits_unconditional_false : ¬ C03_waits_unconditional_statement := 
     | nil => simp [decodeOne] at h3
     | cons x t => simp [decodeOne, isCont] at h3
 
-/-- Non-vacuity of `C03_waits_only_when_growable`: the decoder does wait on `ESC [ 1` and on `E2 82`. -/
-example : getKey genTables [27, 91, 49] .utf8 .curtsies false = .ok none ∧
-    getKey genTables [0xE2, 0x82] .utf8 .curtsies true = .ok none ∧ wellFormedSoFar [0xE2, 0x82] := by
-  refine ⟨by decide +kernel, by decide +kernel, ?_⟩
-  simp [wellFormedSoFar, isCont]
-
 /-! ### (5) never fails on recognised input - outside known finding D12 -/
 
 /-- FULL statement: on input made of recognised sequences and validly encoded characters (`Recognised`, byte-level,
@@ -370,12 +479,13 @@ def C03_never_fails_full_statement : Prop :=
   ∀ (enc : Enc) (mode : KeyMode) (buf : List Nat), Recognised genTables enc buf →
     ∃ ps, segment genTables enc mode buf.length buf = .ok ps
 
-/-- What is proved: the full statement with the one extra hypothesis `noD12` - nowhere in the buffer is a
-    KEYMAP_PREFIXES member followed by a byte >= 0x80 (needed under utf-8 and ascii only) - which is exactly the
-    complement of D12's footprint. For arbitrary tables satisfying `WF`, any fuel >= the buffer length.
+/-- What is proved: the full statement with the one extra hypothesis `runNoD12` (Proofs/KeysLoop.lean): in no
+    `find_key()` call of the run is `get_key` handed a KEYMAP_PREFIXES member followed by a byte >= 0x80 (needed
+    under utf-8 and ascii only) - EXACTLY the complement of D12's footprint, relative to the decoder's own state.
+    For arbitrary tables satisfying `WF`, any fuel >= the buffer length.
     Missing relative to the full statement: the D12 region itself (where the code does fail). -/
 theorem C03_never_fails_partial (T : KeyTables) (hT : T.WF) (enc : Enc) (mode : KeyMode) (n : Nat) :
-    ∀ buf : List Nat, buf.length ≤ n → Recognised T enc buf → (enc = .latin1 ∨ noD12 T buf) →
+    ∀ buf : List Nat, buf.length ≤ n → Recognised T enc buf → (enc = .latin1 ∨ runNoD12 T enc mode n buf) →
     ∃ ps, segment T enc mode n buf = .ok ps := by
   induction n with
   | zero =>
@@ -387,18 +497,28 @@ theorem C03_never_fails_partial (T : KeyTables) (hT : T.WF) (enc : Enc) (mode : 
     cases buf with
     | nil => exact ⟨[], rfl⟩
     | cons b bs =>
-      obtain ⟨k, c, r, hf, hr⟩ := findKey_recognised hT enc mode (b :: bs) (by simp) hrec hno
+      obtain ⟨k, c, r, hf, hr⟩ := findKey_recognised hT enc mode (b :: bs) (by simp) hrec
+        (hno.imp id (fun h => h.1))
       obtain ⟨h1, h2⟩ := C03_lossless T enc mode _ k c r hf
       have hlen : r.length ≤ n := by
         have : (c ++ r).length = (b :: bs).length := by rw [h1]
         have hc : 0 < c.length := List.length_pos_iff.mpr h2
         simp at this hl; omega
-      obtain ⟨ps, hps⟩ := ih r hlen hr (hno.imp id (fun h => noD12_suffix (c := c) (by rw [h1]; exact h)))
+      obtain ⟨ps, hps⟩ := ih r hlen hr (hno.imp id (fun h => h.2 k c r hf))
       exact ⟨(k, c) :: ps, by simp [segment, hf, hps]⟩
+
+/-- The same with the STATIC, decoder-independent hypothesis `noD12` (nowhere in the buffer is a KEYMAP_PREFIXES
+    member followed by a byte >= 0x80). It implies `runNoD12` but over-approximates the footprint: e.g.
+    `1b 5b 31 1b c3 a9` is excluded by it although it decodes (to `ESC[1ESC`, `é`) - see the example below. -/
+theorem C03_never_fails_static (T : KeyTables) (hT : T.WF) (enc : Enc) (mode : KeyMode) (n : Nat)
+    (buf : List Nat) (hl : buf.length ≤ n) (hrec : Recognised T enc buf) (hno : enc = .latin1 ∨ noD12 T buf) :
+    ∃ ps, segment T enc mode n buf = .ok ps :=
+  C03_never_fails_partial T hT enc mode n buf hl hrec (hno.imp id (runNoD12_of_noD12 enc mode n buf))
 
 /-- `C03_never_fails_partial` for the regenerated tables and the fuel the driver uses. -/
 theorem C03_never_fails_generated (enc : Enc) (mode : KeyMode) (buf : List Nat)
-    (hrec : Recognised genTables enc buf) (hno : enc = .latin1 ∨ noD12 genTables buf) :
+    (hrec : Recognised genTables enc buf)
+    (hno : enc = .latin1 ∨ runNoD12 genTables enc mode buf.length buf) :
     ∃ ps, segment genTables enc mode buf.length buf = .ok ps :=
   C03_never_fails_partial genTables genTables_wf enc mode buf.length buf (Nat.le_refl _) hrec hno
 
@@ -425,6 +545,16 @@ theorem C03_D12_witness :
   rw [this] at hps
   cases hps
 
+/-- The static `noD12` over-approximates: it excludes `1b 5b 31 1b c3 a9`, which decodes without failure (and on
+    which the exact `runNoD12` holds, by `decide`-free inspection: the decoder's states `1b`, `1b 5b`, `1b 5b 31`
+    are followed by ASCII bytes, and `c3 a9` starts a fresh call). -/
+example : ¬ noD12 genTables [27, 91, 49, 27, 0xC3, 0xA9] ∧
+    ∃ ps, segment genTables .utf8 .curtsies 6 [27, 91, 49, 27, 0xC3, 0xA9] = .ok ps := by
+  refine ⟨?_, [(.text [27, 91, 49, 27], [27, 91, 49, 27]), (.text [0xE9], [0xC3, 0xA9])], by decide +kernel⟩
+  intro h
+  have := h [27, 91, 49] [27] 0xC3 [0xA9] (by simp) (by decide +kernel)
+  omega
+
 /-- Non-vacuity of `C03_never_fails_partial`: `ESC [ A`, U+00E9 and a final 0xFF form recognised input with no
     KEYMAP_PREFIXES member followed by a byte >= 0x80 ... -/
 example : Recognised genTables .utf8 ([27] ++ ([91] ++ ([65] ++ ([0xC3, 0xA9] ++ [0xFF])))) :=
@@ -438,10 +568,10 @@ example : segment genTables .utf8 .curtsies 6 [27, 91, 65, 0xC3, 0xA9, 0xFF] =
 /-! ### units: what "input made of recognised sequences and validly encoded characters" means -/
 
 /-- one unit of "input made of recognised escape sequences and validly encoded characters": a table sequence or
-    one valid character; under utf-8 a single-byte 8-bit table key is not a unit here (it may only END the
-    input: `final` in `C03_units_recognised`) -/
+    one valid character; under utf-8 a single-byte table key whose value is a UTF-8 lead byte (C0..FD) is not a
+    unit here (it may only END the input: `final` in `C03_units_recognised`) -/
 def isUnit (T : KeyTables) : Enc → List Nat → Prop
-  | .utf8, u => (T.isKey u = true ∧ ∀ b, u = [b] → b < 128) ∨ Shape u
+  | .utf8, u => (T.isKey u = true ∧ ∀ b, u = [b] → ¬ (0xC0 ≤ b ∧ b ≤ 0xFD)) ∨ Shape u
   | .ascii, u => T.isKey u = true ∨ ∃ b, u = [b] ∧ b < 128
   | .latin1, u => T.isKey u = true ∨ ∃ b, u = [b] ∧ b < 256
 
@@ -470,13 +600,15 @@ theorem C03_units_recognised (T : KeyTables) (hT : T.WF) (enc : Enc) (units : Li
       have ih := ih (fun v hv => hu v (by simp [hv]))
       simp only [List.flatten_cons, List.append_assoc]
       rcases hu u (by simp) with ⟨hk, h1⟩ | hs
-      · apply recUtf8_ascii_append _ _ _ ih
-        obtain ⟨hne, _, _, hm⟩ := isKey_entry hT hk
+      · obtain ⟨hne, _, _, hm⟩ := isKey_entry hT hk
         by_cases h2 : 2 ≤ u.length
-        · exact (hm h2).2
-        · match u, hne, h2, h1 with
-          | [b], _, _, h1 => intro x hx; simp at hx; subst hx; exact h1 x rfl
-          | _ :: _ :: _, _, h2, _ => simp at h2
+        · exact recUtf8_ascii_append _ _ (hm h2).2 ih
+        · match u, hne, h2, h1, hk with
+          | [b], _, _, h1, hk =>
+            by_cases hb : b < 128
+            · exact recUtf8_ascii_append _ _ (by intro x hx; simp at hx; subst hx; exact hb) ih
+            · exact .key8 b _ hk (by omega) (h1 b rfl) ih
+          | _ :: _ :: _, _, h2, _, _ => simp at h2
       · exact .char u _ hs ih
   | ascii =>
     have hfin : final = [] := by rcases hf with h | ⟨h, _⟩; exact h; cases h
